@@ -142,3 +142,110 @@ Theorem C01_generated_enable_is_model : forall E fuel hs s b s',
   Inv s -> step_op E fuel hs s (OEnable b) = (s', Done) -> GenSchedEq.gen_set_enabled E fuel b s = Some (s', GenRt.Ret).
 Proof. exact GenSchedEq.gen_enable_is_model. Qed.
 Print Assumptions C01_generated_enable_is_model.
+
+(* ---- the FULLY GENERATED stack (GenSystem*.v): a history machine in which every API operation is executed by generated code only (builder, store, job classes, controls, scheduler; in GenSystem2 also the producers) ---- *)
+
+
+(* ---- THE WHOLE STACK, GENERATED (theories/GenSystem.v): [gen_run] executes the histories of [Sched.run] with
+   generated code only - JobBuilder.once/countdown/at -> _add_job -> store / link_scheduler -> scheduler; the control
+   methods -> job methods -> scheduler; set_enabled; run_jobs with the generated job.execute(); the callback
+   handlers.  Hand-written between the pieces: the vocabulary of histories, the initial state, the clock, the event
+   loop's firing rule for the armed timer, argument conversion, which control class an entry point hands out, and
+   dropping the unreferenced object after a duplicate id (list at the head of GenSystem.v).  For every environment,
+   fuel, store flag and TYPED history (each control operation on the kind of job whose control class offers it;
+   cancel / pause / stop address an existing job), as long as the model does not run out of fuel, the generated
+   machine yields the model's outcomes and the model's state up to SchedEqst.eqst (every field equal, the job tables
+   equal at every index).  The C01 theorems follow for the generated machine. *)
+From EAS Require SchedEqst GenRtJobs GenSystem.
+Theorem C01_generated_system_is_model : forall E fuel hs t0 en ops s rs,
+  GenSystem.ops_wt E fuel hs (init t0 en) ops -> run E fuel hs (init t0 en) ops = (s, rs) -> ~ In NoFuel rs ->
+  exists g, GenSystem.gen_run E fuel hs (init t0 en) ops = (g, map GenSystem.oc_of rs) /\ SchedEqst.eqst g s.
+Proof. exact GenSystem.gen_run_is_model. Qed.
+Print Assumptions C01_generated_system_is_model.
+(* when triggers answer in the future, [length ops + 7] units of fuel suffice and the side condition disappears *)
+Theorem C01_generated_system_total : forall E fuel hs t0 en ops,
+  (forall j k t, exists v, prod E j k t = Ok v /\ t < v) -> (length ops + 7 <= fuel)%nat ->
+  GenSystem.ops_wt E fuel hs (init t0 en) ops ->
+  SchedEqst.eqst (fst (GenSystem.gen_run E fuel hs (init t0 en) ops)) (fst (run E fuel hs (init t0 en) ops)) /\
+  snd (GenSystem.gen_run E fuel hs (init t0 en) ops) = map GenSystem.oc_of (snd (run E fuel hs (init t0 en) ops)) /\
+  ~ In GenSystem.GNoFuel (snd (GenSystem.gen_run E fuel hs (init t0 en) ops)).
+Proof. exact GenSystem.gen_run_total. Qed.
+Print Assumptions C01_generated_system_total.
+Theorem C01_generated_system_invariant : forall E fuel hs t0 en ops g,
+  GenSystem.GReach E fuel hs t0 en ops g ->
+  Inv g /\
+  match queue g with
+  | [] => timer g = None
+  | h :: _ => if enabled g then timer g = jnext (jobs g h) /\ jnext (jobs g h) <> None else timer g = None
+  end.
+Proof. exact GenSystem.gen_reach_inv. Qed.
+Print Assumptions C01_generated_system_invariant.
+Theorem C01_generated_system_never_early : forall E fuel hs t0 en ops g,
+  GenSystem.GReach E fuel hs t0 en ops g -> Forall not_early (log g).
+Proof. exact GenSystem.gen_never_early. Qed.
+Print Assumptions C01_generated_system_never_early.
+Theorem C01_generated_system_on_time_after_wake : forall E fuel hs t0 en ops g g',
+  GenSystem.GReach E fuel hs t0 en ops g -> GenSystem.fuel_ok E fuel hs g OWake ->
+  GenSystem.gen_step_op E fuel hs g OWake = (g', GenSystem.GDone) -> enabled g' = true -> NoDue g'.
+Proof. exact GenSystem.gen_wake_runs_due. Qed.
+Print Assumptions C01_generated_system_on_time_after_wake.
+(* the other properties anchored in the scheduler / job / builder files, for the generated machine *)
+Theorem C02_generated_system_disabled_quiet : forall E fuel hs t0 en ops g o g' gr,
+  GenSystem.GReach E fuel hs t0 en ops g -> GenSystem.op_wt g o -> GenSystem.fuel_ok E fuel hs g o ->
+  enabled g = false -> o <> OEnable true -> GenSystem.gen_step_op E fuel hs g o = (g', gr) ->
+  SchedProps.execs (log g') = SchedProps.execs (log g).
+Proof. exact GenSystem.gen_disabled_quiet. Qed.
+Print Assumptions C02_generated_system_disabled_quiet.
+Theorem C02_generated_system_queue_exact : forall E fuel hs t0 en ops g,
+  GenSystem.GReach E fuel hs t0 en ops g ->
+  NoDup (queue g) /\ Sorted.StronglySorted (SchedInv.le_next g) (queue g) /\
+  (forall j, In j (queue g) <-> jstatus (jobs g j) = Running).
+Proof. exact GenSystem.gen_queue_exact. Qed.
+Print Assumptions C02_generated_system_queue_exact.
+Theorem C09_generated_system_wake_order : forall E fuel hs t0 en ops g g',
+  (forall j k t, exists v, prod E j k t = Ok v /\ t < v) ->
+  GenSystem.GReach E fuel hs t0 en ops g -> GenSystem.fuel_ok E fuel hs g OWake ->
+  GenSystem.gen_step_op E fuel hs g OWake = (g', GenSystem.GDone) ->
+  Sorted.StronglySorted (fun x y : nat * Z => snd y <= snd x) (SchedOrder.cx g') /\ NoDup (map fst (SchedOrder.cx g')).
+Proof. exact GenSystem.gen_wake_order. Qed.
+Print Assumptions C09_generated_system_wake_order.
+Theorem C10_generated_system_failures_isolated : forall E fuel hs t0 en ops,
+  GenSystem.ops_wt E fuel hs (init t0 en) ops -> ~ In NoFuel (snd (run E fuel hs (init t0 en) ops)) ->
+  SchedEqst.eqst (fst (GenSystem.gen_run (SchedIso.quiet_env E) fuel hs (init t0 en) ops))
+                 (SchedIso.er (fst (GenSystem.gen_run E fuel hs (init t0 en) ops))) /\
+  snd (GenSystem.gen_run (SchedIso.quiet_env E) fuel hs (init t0 en) ops) = snd (GenSystem.gen_run E fuel hs (init t0 en) ops).
+Proof. exact GenSystem.gen_failures_isolated. Qed.
+Print Assumptions C10_generated_system_failures_isolated.
+Theorem C10_generated_system_handled_exactly_once : forall E fuel hs t0 en ops g,
+  GenSystem.GReach E fuel hs t0 en ops g -> SchedHandled.once E (log g).
+Proof. exact GenSystem.gen_handled_exactly_once. Qed.
+Print Assumptions C10_generated_system_handled_exactly_once.
+Theorem C07_generated_system_status_next_agree : forall E fuel hs t0 en ops g j,
+  GenSystem.GReach E fuel hs t0 en ops g ->
+  (jstatus (jobs g j) = Running <-> jnext (jobs g j) <> None) /\
+  (jstatus (jobs g j) <> Running -> jnext (jobs g j) = None).
+Proof. exact GenSystem.gen_status_next_agree. Qed.
+Print Assumptions C07_generated_system_status_next_agree.
+Theorem C07_generated_system_finished_terminal : forall E fuel hs t0 en ops g j o,
+  GenSystem.GReach E fuel hs t0 en ops g -> jstatus (jobs g j) = Finished -> SchedProps.control_op_on j o ->
+  GenSystem.op_wt g o ->
+  exists e g', GenSystem.gen_step_op E fuel hs g o = (g', GenSystem.GRaised (GenRtJobs.JErr e)) /\ SchedEqst.eqst g' g.
+Proof. exact GenSystem.gen_finished_terminal. Qed.
+Print Assumptions C07_generated_system_finished_terminal.
+Theorem C08_generated_system_once_start_exact : forall E fuel hs t0 en ops g o g' gr j t a oi,
+  (forall j k t, exists v, prod E j k t = Ok v /\ t < v) ->
+  GenSystem.GReach E fuel hs t0 en ops g -> GenSystem.op_wt g o -> GenSystem.fuel_ok E fuel hs g o ->
+  GenSystem.gen_step_op E fuel hs g o = (g', gr) ->
+  In (EExec j t a oi) (SchedExact.new_events g g') -> jkind (jobs g' j) = KOnce ->
+  a = jexec_t (jobs g' j) /\ a <= t /\ t = now g /\ jstatus (jobs g' j) = Finished /\ jnext (jobs g' j) = None.
+Proof. exact GenSystem.gen_once_start_exact. Qed.
+Print Assumptions C08_generated_system_once_start_exact.
+Theorem C08_generated_system_countdown_start_exact : forall E fuel hs t0 en ops g o g' gr j t a oi,
+  (forall j k t, exists v, prod E j k t = Ok v /\ t < v) ->
+  GenSystem.GReach E fuel hs t0 en ops g -> GenSystem.op_wt g o -> GenSystem.fuel_ok E fuel hs g o ->
+  GenSystem.gen_step_op E fuel hs g o = (g', gr) ->
+  In (EExec j t a oi) (SchedExact.new_events g g') -> jkind (jobs g' j) = KCountdown ->
+  jstatus (jobs g j) = Running /\ jnext (jobs g j) = Some a /\ a <= t /\ t = now g /\
+  jstatus (jobs g' j) = Paused /\ jnext (jobs g' j) = None /\ jkind (jobs g j) = KCountdown.
+Proof. exact GenSystem.gen_countdown_start_exact. Qed.
+Print Assumptions C08_generated_system_countdown_start_exact.
